@@ -11,6 +11,7 @@
 -/
 import UnytProofs.C04
 import UnytProofs.Lemmas.C04Prog
+import UnytProofs.Lemmas.C04Total
 
 set_option linter.unusedSectionVars false
 
@@ -203,5 +204,82 @@ example :
       | .error _ => none) = some (p.evalRef (fun i => (env i).1.scale * (env i).2), Dim.dLength)
     ∧ p.evalRef (fun i => (env i).1.scale * (env i).2) = 625 := by
   decide +kernel
+
+/-! ### totality: when the dispatcher model returns a result
+
+The rule theorems above that speak of a *given* outcome (`… = .ok o → …`) would be satisfied by a model
+that refuses everything.  It does not: the preserve / difference / comparison / floor-divide / pass-through
+theorems are already stated as "there is an outcome"; for the remaining rules: -/
+
+/-- **The multiply and divide rules return a result** for zero-offset, non-logarithmic operands whose
+    symbols all resolve to plain table entries (no zero point, no logarithmic component): `Unit.__mul__` /
+    `__truediv__` accept them, `_cancel_mul` never refuses, the post-multiplication block has no
+    Celsius/Fahrenheit operand to refuse. -/
+theorem multiply_divide_rule_total (ueq : UnitV K → UnitV K → Bool) (pre : Prefixes K) (t : Lut K)
+    (u0 u1 : UnitV K) (z0 z1 : Bool) (h0 : u0.offset = 0) (h1 : u1.offset = 0)
+    (l0 : u0.isLogarithmic = false) (l1 : u1.isLogarithmic = false)
+    (p0 : AllPlain pre t u0.expr.factors) (p1 : AllPlain pre t u1.expr.factors) :
+    (∃ o, dispatchBinary ueq pre t "multiply" ⟨some u0, z0⟩ ⟨some u1, z1⟩ none = .ok o) ∧
+    (∃ o, dispatchBinary ueq pre t "divide" ⟨some u0, z0⟩ ⟨some u1, z1⟩ none = .ok o) := by
+  have hpost : ∀ (m : K) (u : UnitV K), ∃ o, postMulBlock u0 u1 1 m u = .ok o := by
+    intro m u; simp [postMulBlock, h0, h1]
+  constructor
+  · have hf : ruleOf "multiply" = some .multiply := by decide
+    have hc : Rule.multiply.converts = false := by decide
+    have hp : Rule.multiply.postMul = true := by decide
+    have hmul : ∃ r, u0.mul u1 = .ok r ∧ r.expr = u0.expr.mul u1.expr := by
+      simp [UnitV.mul, UnitV.mulOffset, l0, l1, h0, h1]
+    obtain ⟨r, hr, hre⟩ := hmul
+    have hpl : AllPlain pre t r.expr.factors := by
+      rw [hre]; intro s q hm
+      rcases List.mem_append.mp hm with hm | hm
+      · exact p0 s q hm
+      · exact p1 s q hm
+    obtain ⟨e', he'⟩ := cancelMul_total pre t r.expr hpl
+    have hmu : multiplyUnits pre t u0 u1 = .ok ({ r with expr := e' } : UnitV K).asCoeffUnit := by
+      simp [multiplyUnits, hr, simplify, he']
+    obtain ⟨o, ho⟩ := hpost ({ r with expr := e' } : UnitV K).asCoeffUnit.1 ({ r with expr := e' } : UnitV K).asCoeffUnit.2
+    exact ⟨o, by simp [dispatchBinary, binaryRule, effective_of_ne_floorDivide, hf, hc, hp, hmu, Except.map, ho]⟩
+  · have hf : ruleOf "divide" = some .divide := by decide
+    have hc : Rule.divide.converts = false := by decide
+    have hp : Rule.divide.postMul = true := by decide
+    have hdiv : ∃ r, u0.div u1 = .ok r ∧ r.expr = u0.expr.div u1.expr := by
+      simp [UnitV.div, l0, l1, h0, h1]
+    obtain ⟨r, hr, hre⟩ := hdiv
+    have hpl : AllPlain pre t r.expr.factors := by
+      rw [hre]; intro s q hm
+      simp only [UExpr.div] at hm
+      rcases List.mem_append.mp hm with hm | hm
+      · exact p0 s q hm
+      · simp only [UExpr.negF, List.mem_map] at hm
+        obtain ⟨x, hx, hxe⟩ := hm
+        cases hxe
+        exact p1 x.1 x.2 hx
+    obtain ⟨e', he'⟩ := cancelMul_total pre t r.expr hpl
+    have hmu : divideUnits pre t u0 u1 = .ok ({ r with expr := e' } : UnitV K).asCoeffUnit := by
+      simp [divideUnits, hr, simplify, he']
+    obtain ⟨o, ho⟩ := hpost ({ r with expr := e' } : UnitV K).asCoeffUnit.1 ({ r with expr := e' } : UnitV K).asCoeffUnit.2
+    exact ⟨o, by simp [dispatchBinary, binaryRule, effective_of_ne_floorDivide, hf, hc, hp, hmu, Except.map, ho]⟩
+
+/-- **The power rule returns a result** for every zero-offset, non-logarithmic quantity and every
+    rational exponent -/
+theorem power_rule_total (ueq : UnitV K → UnitV K → Bool) (pre : Prefixes K) (t : Lut K)
+    (u0 : UnitV K) (z0 z1 : Bool) (p : Rat) (h0 : u0.offset = 0) (l0 : u0.isLogarithmic = false) :
+    ∃ o, dispatchBinary ueq pre t "power" ⟨some u0, z0⟩ ⟨none, z1⟩ (some p) = .ok o := by
+  have hf : ruleOf "power" = some .power := by decide
+  exact ⟨_, by simp [dispatchBinary, hf, UnitV.pow, l0, h0, Except.map]; rfl⟩
+
+/-- non-vacuity: metre and kilometre over the two-row table are plain, so `2 km * 3 m` and `2 km / 3 m`
+    are covered by the totality theorem (over ℚ) -/
+example : AllPlain (K := Rat) [] kmLut uKm.expr.factors ∧ AllPlain (K := Rat) [] kmLut uM.expr.factors := by
+  constructor
+  · intro s q hm
+    simp [uKm, UExpr.sym] at hm
+    obtain ⟨rfl, _⟩ := hm
+    exact ⟨⟨1000, Dim.dLength, 0, false⟩, rfl, rfl, rfl⟩
+  · intro s q hm
+    simp [uM, UExpr.sym] at hm
+    obtain ⟨rfl, _⟩ := hm
+    exact ⟨⟨1, Dim.dLength, 0, true⟩, rfl, rfl, rfl⟩
 
 end Unyt.C04
